@@ -210,14 +210,14 @@ func vpFilterStoreEquals(fs *filterHeaderStore, model []chainhash.Hash) bool {
 func VerifH_C08_filterCrash() {
 	vpResetEnv()
 	db := vpReadyDB()
-	params := vpParams()
 	w := &vpWorld{samePrefix: false}
+	w.prepareGenesis()
+	params := vpParams()
 	bs := vpOpenBlockStore(db, params)
 	if bs == nil {
 		return
 	}
 	blocks := []wire.BlockHeader{vpGenesisHeader()}
-	w.admit(blocks[0].BlockHash())
 	nb := 3
 	var batch []BlockHeader
 	prevB := blocks[0].BlockHash()
